@@ -173,20 +173,42 @@ fn idx_of_match(c: &Case, pred: &dyn Fn(u64) -> bool) -> usize {
 fn params_after(sets: &[SetD], mut p: Params) -> Params {
     for s in sets {
         match *s {
-            SetD::NtUsize(n) => p.num_threads = NumThreads::from(n),
+            SetD::NtUsize(n) => p.num_threads = nt_of_usize_spec(n),
             SetD::NtEnum(v) => p.num_threads = v,
-            SetD::CsUsize(n) => p.chunk_size = ChunkSize::from(n),
+            SetD::CsUsize(n) => p.chunk_size = cs_of_usize_spec(n),
             SetD::CsEnum(v) => p.chunk_size = v,
         }
     }
     p
 }
 pub fn final_params(c: &Case) -> Params {
-    let mut p = Params::default();
+    let mut p = params_default_spec();
     for s in &c.sets {
         p = params_after(s, p);
     }
     p
+}
+/// the property's definitions, NOT the library's own `Default` / `From<usize>` (which are under
+/// test): defaults Auto/Auto; 0 converts to Auto, n > 0 to Max(n) / Exact(n)
+pub fn params_default_spec() -> Params {
+    Params { num_threads: NumThreads::Auto, chunk_size: ChunkSize::Auto }
+}
+pub fn nt_of_usize_spec(n: usize) -> NumThreads {
+    match NonZeroUsize::new(n) {
+        None => NumThreads::Auto,
+        Some(n) => NumThreads::Max(n),
+    }
+}
+pub fn cs_of_usize_spec(n: usize) -> ChunkSize {
+    match NonZeroUsize::new(n) {
+        None => ChunkSize::Auto,
+        Some(n) => ChunkSize::Exact(n),
+    }
+}
+/// the property's definition of "sequential", NOT the library's `Params::is_sequential()` (which
+/// is under test): true exactly for `NumThreads::Max(1)`
+pub fn is_seq_spec(p: &Params) -> bool {
+    matches!(p.num_threads, NumThreads::Max(n) if n.get() == 1)
 }
 pub fn enc_params(p: Params, seq: bool) -> String {
     format!("{}/{}/{}", enc_nt(p.num_threads), enc_cs(p.chunk_size), if seq { 1 } else { 0 })
@@ -228,7 +250,7 @@ pub fn emit_case_known(out: &mut dyn Write, group: &str, c: &Case, verbose: bool
     let mut fails: Vec<String> = vec![];
     let mut notes: Vec<String> = vec![];
     let fp = final_params(c);
-    let src_params = params_after(c.sets.first().map(|v| v.as_slice()).unwrap_or(&[]), Params::default());
+    let src_params = params_after(c.sets.first().map(|v| v.as_slice()).unwrap_or(&[]), params_default_spec());
     let later_sets = c.sets.iter().skip(1).any(|s| !s.is_empty());
     let panicked = r.outcome == Outcome::Panic;
 
@@ -479,15 +501,15 @@ pub fn emit_case_known(out: &mut dyn Write, group: &str, c: &Case, verbose: bool
 
     // ---- params (C12) and laziness (C16)
     {
-        let mut p = Params::default();
-        let mut want = vec![enc_params(p, p.is_sequential())];
+        let mut p = params_default_spec();
+        let mut want = vec![enc_params(p, is_seq_spec(&p))];
         for (i, ss) in c.sets.iter().enumerate() {
             if i > 0 {
-                want.push(enc_params(p, p.is_sequential()));
+                want.push(enc_params(p, is_seq_spec(&p)));
             }
             for s in ss {
                 p = params_after(&[*s], p);
-                want.push(enc_params(p, p.is_sequential()));
+                want.push(enc_params(p, is_seq_spec(&p)));
             }
         }
         let got: Vec<String> = r.params_trace.iter().map(|(p, s)| enc_params(*p, *s)).collect();
@@ -649,8 +671,8 @@ pub fn emit_case_known(out: &mut dyn Write, group: &str, c: &Case, verbose: bool
 
 fn fp_all_sequential(c: &Case) -> bool {
     // sequential for the whole computation: Max(1) set on the source and never overridden
-    let p0 = params_after(c.sets.first().map(|v| v.as_slice()).unwrap_or(&[]), Params::default());
-    p0.is_sequential() && !c.sets.iter().skip(1).flatten().any(|s| matches!(s, SetD::NtUsize(_) | SetD::NtEnum(_)))
+    let p0 = params_after(c.sets.first().map(|v| v.as_slice()).unwrap_or(&[]), params_default_spec());
+    is_seq_spec(&p0) && !c.sets.iter().skip(1).flatten().any(|s| matches!(s, SetD::NtUsize(_) | SetD::NtEnum(_)))
 }
 
 fn op_name(o: OpD) -> &'static str {
@@ -871,7 +893,7 @@ pub fn gen_case(rng: &mut Rng, o: &GenOpts) -> Case {
         NumThreads::Max(n) => n.get().min(16) as u32,
     };
     let has_eager = CHAINS.iter().find(|c| c.0 == kinds).map(|c| c.4.iter().any(|e| *e)).unwrap_or(false);
-    let ctl = !p.is_sequential() && !has_eager && !ops.is_empty() && rng.below(10) < o.ctl_share && len <= 200;
+    let ctl = !is_seq_spec(&p) && !has_eager && !ops.is_empty() && rng.below(10) < o.ctl_share && len <= 200;
     let mode = if ctl { Mode::Ctl(gen_schedule(rng, len, maxw)) } else { Mode::Free(if rng.chance(2, 3) { rng.next() | 1 } else { 0 }) };
     Case { src_kind, input, ops, sets, term, mode, panic_at: None }
 }
@@ -1143,7 +1165,7 @@ pub fn neighbors(out: &mut dyn Write, base: &Case, seed: u64, count: usize) -> s
             NumThreads::Auto => 8,
             NumThreads::Max(n) => n.get().min(16) as u32,
         };
-        c.mode = if !p.is_sequential() && !c.has_eager() && !c.ops.is_empty() && len <= 200 && rng.chance(1, 2) {
+        c.mode = if !is_seq_spec(&p) && !c.has_eager() && !c.ops.is_empty() && len <= 200 && rng.chance(1, 2) {
             Mode::Ctl(gen_schedule(&mut rng, len, maxw))
         } else {
             Mode::Free(if rng.chance(2, 3) { rng.next() | 1 } else { 0 })
@@ -1423,6 +1445,19 @@ pub fn run(out: &mut dyn Write, prop: &str, seed: u64, thorough: bool) -> std::i
             let mut o = base(t);
             o.force_seq = true;
             go(out, &mut rng, "sequential", &o, n(4000, 30000))?;
+            // the same with chunk sizes beyond isize::MAX set after (or before) num_threads(1)
+            for _ in 0..n(200, 2000) {
+                let mut c = gen_case(&mut rng, &o);
+                c.src_kind = 'v';
+                for ss in c.sets.iter_mut() {
+                    ss.retain(|x| !matches!(x, SetD::CsUsize(_) | SetD::CsEnum(_)));
+                }
+                let big = *rng.pick(&[SetD::CsUsize(usize::MAX), SetD::CsEnum(ChunkSize::Min(nz(usize::MAX))), SetD::CsEnum(ChunkSize::Exact(nz((1usize << 63) + 7))), SetD::CsUsize((isize::MAX as usize) + 1)]);
+                let at = if rng.chance(1, 2) { c.sets[0].len() } else { 0 };
+                c.sets[0].insert(at, big);
+                emit_case(out, "huge-chunk", &c, false)?;
+                total_c.set(total_c.get() + 1);
+            }
         }
         "C11" => {
             let mut t = vec![TermD::CollectVec, TermD::Count, TermD::Reduce(RedD::Add), TermD::CollectX, TermD::ForEach];
@@ -1509,6 +1544,16 @@ pub fn run(out: &mut dyn Write, prop: &str, seed: u64, thorough: bool) -> std::i
                         emit_case(out, "one-setter", &c, false)?;
                         total_c.set(total_c.get() + 1);
                     }
+                }
+                // chunk sizes beyond isize::MAX, in sequential mode (the chunk size is never used there)
+                for (a, b) in [(SetD::NtUsize(1), SetD::CsUsize(usize::MAX)), (SetD::CsEnum(ChunkSize::Min(nz(usize::MAX))), SetD::NtUsize(1)), (SetD::NtEnum(NumThreads::Max(nz(1))), SetD::CsEnum(ChunkSize::Exact(nz((1usize << 63) + 1))))] {
+                    let mut sets = vec![vec![]; ops.len() + 1];
+                    sets[0].push(a);
+                    let pos = rng.below(ops.len() as u64 + 1) as usize;
+                    sets[pos].push(b);
+                    let c = Case { src_kind: 'v', input: input.clone(), ops: ops.clone(), sets, term: TermD::Count, mode: Mode::Free(0), panic_at: None };
+                    emit_case(out, "huge-chunk-sequential", &c, false)?;
+                    total_c.set(total_c.get() + 1);
                 }
                 // two and three setters at random positions, both kinds, re-set
                 for _ in 0..n(6, 40) {
@@ -1699,7 +1744,7 @@ pub fn run(out: &mut dyn Write, prop: &str, seed: u64, thorough: bool) -> std::i
                 let src_kind = *rng.pick(&['V', 'V', 'K', 'U']);
                 let mut c = Case { src_kind, input, ops, sets, term, mode: Mode::Free(if rng.chance(2, 3) { rng.next() | 1 } else { 0 }), panic_at: None };
                 let p = final_params(&c);
-                if !p.is_sequential() && !c.has_eager() && !c.ops.is_empty() && rng.chance(1, 3) && len <= 120 {
+                if !is_seq_spec(&p) && !c.has_eager() && !c.ops.is_empty() && rng.chance(1, 3) && len <= 120 {
                     let maxw = match p.num_threads {
                         NumThreads::Auto => 8,
                         NumThreads::Max(n) => n.get().min(16) as u32,
